@@ -14,7 +14,7 @@
 (***************************************************************************)
 EXTENDS WireAbs, Json
 
-CONSTANT Part      \* which slice of the vectors this run enumerates: "single", "nest", or a kind (the pairs whose first field is of that kind)
+CONSTANT Part      \* which slice of the vectors this run enumerates: "all", "single", "nest", or a kind (the pairs whose first field is of that kind)
 VARIABLE v
 
 F1_0  == <<0, 0, 128, 63>>    F2_0 == <<0, 0, 0, 64>>     F3_0 == <<0, 0, 64, 64>>   F4_0 == <<0, 0, 128, 64>>
@@ -57,7 +57,10 @@ Wrap(mm, d) == IF d = 0 THEN mm ELSE [what |-> <<d, 0, 0, 0>>, fields |-> <<[nam
 Nest == {Wrap(Leaf(W0, k, SubSeq(Seq3(k), 1, 2)), d) : k \in Kinds, d \in 1..3}
         \cup {[what |-> W0, fields |-> <<[name |-> <<109>>, type |-> TC_MESSAGE, items |-> <<Wrap(Leaf(W0, k, SubSeq(Seq3(k), 1, 1)), 1), Wrap(Leaf(W0, "string", SubSeq(Seq3("string"), 1, 2)), 2), [what |-> <<0, 0, 0, 0>>, fields |-> <<>>]>>]>>] : k \in Kinds}
 
-Vectors == CASE Part = "single" -> Single [] Part = "nest" -> Nest [] OTHER -> Pairs(Part)
+NestNames == {Wrap([what |-> W0, fields |-> <<Fld(nm, "int32", 1), Fld(NB, "string", 2)>>], d) : nm \in {<<195, 169>>, <<110, 255>>, <<>>}, d \in 1..2}
+
+Vectors == CASE Part = "single" -> Single [] Part = "nest" -> Nest \cup NestNames [] Part = "all" -> Single \cup Nest \cup NestNames \cup UNION {Pairs(k) : k \in Kinds}
+             [] OTHER -> Pairs(Part)
 
 Init == v \in Vectors
 Next == UNCHANGED v
@@ -66,5 +69,5 @@ Spec == Init /\ [][Next]_v
 \* the codec's own laws on every vector
 VecOK == /\ WellFormed(v)
          /\ LET b == Flatten(v) u == Unflatten(b) IN u.ok /\ u.msg = v /\ Len(b) = FlattenedSize(v) /\ Flatten(u.msg) = b
-Emit == PrintT("@@" \o ToJson([m |-> v, b |-> Flatten(v), z |-> FlattenedSize(v), py |-> Common("python", v), pyn |-> Common("pynative", v)]))
+Emit == PrintT("@@" \o ToJson([m |-> v, b |-> Flatten(v), z |-> FlattenedSize(v), py |-> Common("python", v), pyn |-> Common("pynative", v), f38 |-> F38(v), f39 |-> F39(v)]))
 =============================================================================
